@@ -42,7 +42,7 @@ def _spec(draw, tier):
     spec = {"variant": variant, "csr_dw": csr_dw, "wb_dw": wb_dw, "named": draw(st.booleans()),
             "items": draw(wbplan.schedule_strategy()), "dseed": draw(st.integers(0, 1 << 30))}
     if variant == "A":
-        spec["csr_aw"] = draw(st.integers(1, 8))
+        spec["csr_aw"] = draw(st.one_of(st.integers(1, 8), st.integers(9, 14)))
     else:
         spec["lay"] = draw(gens.csr_layout(max_regs=4, dws=(csr_dw,), overlaps=False, high=True))
     return spec
